@@ -56,15 +56,16 @@ def optIsRef : Option DVal → Bool
   | some dv => dv.isRef
   | none => false
 
-/-- the positions of `T0` whose rows the handle tree at path `pre` may still read -/
+/-- the positions of `T0` whose rows the handle tree at path `pre` may still read (for a persisted
+    or cached node: everything at or below its path) -/
 def Needs : Hd → Nibs → Pos → Prop
   | .none, _, _ => False
   | .persisted _, pre, pos => Below pre pos
   | .empty _, _, _ => False
   | .leaf c pk dv, pre, pos =>
-    (c.isSome = true ∧ pos = .node pre) ∨ (dv.isRef = true ∧ pos = .val (pre ++ pk))
+    (c.isSome = true ∧ Below pre pos) ∨ (dv.isRef = true ∧ pos = .val (pre ++ pk))
   | .branch c pk dvo cs, pre, pos =>
-    (c.isSome = true ∧ pos = .node pre) ∨ (optIsRef dvo = true ∧ pos = .val (pre ++ pk)) ∨
+    (c.isSome = true ∧ Below pre pos) ∨ (optIsRef dvo = true ∧ pos = .val (pre ++ pk)) ∨
       ∃ i, Needs (cs i) (pre ++ pk ++ [i]) pos
 
 theorem needs_below (hd : Hd) : ∀ pre pos, Needs hd pre pos → Below pre pos := by
@@ -74,13 +75,13 @@ theorem needs_below (hd : Hd) : ∀ pre pos, Needs hd pre pos → Below pre pos 
   | empty c => intro _ _ h; exact h.elim
   | leaf c pk dv =>
     intro pre pos h
-    rcases h with ⟨_, rfl⟩ | ⟨_, rfl⟩
-    · exact List.prefix_refl _
+    rcases h with ⟨_, h⟩ | ⟨_, rfl⟩
+    · exact h
     · exact List.prefix_append _ _
   | branch c pk dvo cs ih =>
     intro pre pos h
-    rcases h with ⟨_, rfl⟩ | ⟨_, rfl⟩ | ⟨i, hi⟩
-    · exact List.prefix_refl _
+    rcases h with ⟨_, h⟩ | ⟨_, rfl⟩ | ⟨i, hi⟩
+    · exact h
     · exact List.prefix_append _ _
     · refine below_trans ?_ (ih i _ _ hi)
       rw [List.append_assoc]
